@@ -24,6 +24,7 @@ def check(run):
     exits(run, p)
     defuse(run, p)
     rownum(run, p)
+    nowrite(run, p)
     from .c01 import datelang
     datelang(run, p)
     run.rules['C17-DATELANG'] = run.rules.pop('C01-DATELANG') + ' (the command line always goes through a .tdda file)'
@@ -153,8 +154,8 @@ def rownum(run, p):
     nums = [x for x in ast.walk(f.node) if isinstance(x, ast.Call) and norm(x.func).endswith('RangeIndex')]
     filters = []
     for s in ast.walk(f.node):
-        if isinstance(s, ast.Assign) and isinstance(s.value, ast.Subscript) and isinstance(s.value.slice, ast.Compare) \
-                and 'nfailname' in names_in(s.value.slice):
+        if isinstance(s, ast.Assign) and any(isinstance(x, ast.Subscript) and isinstance(x.slice, ast.Compare) and 'nfailname' in names_in(x.slice)
+                                             for x in ast.walk(s.value)):
             filters.append(s)
     if not nums or not filters:
         raise AnalysisError('write_detected_records: row numbering or row filter not found')
@@ -163,3 +164,25 @@ def rownum(run, p):
     run.ob('C17-ROWNUM', '%s::%s' % (f.rel, f.short), ok,
            'rows are numbered at line %s, the first row filter is at line %d' % ([x.lineno for x in nums], first_filter), fn=f)
     run.floor('C17-ROWNUM', 1, 1)
+
+
+def nowrite(run, p):
+    run.rule('C17-NOWRITE', 'the file front ends write nothing themselves before or around the library call: verify/detect front ends contain no '
+                            'write primitive (the library creates, removes and writes the output), discover writes only the constraints file '
+                            'after discovery has succeeded')
+    from ..effects import Effects
+    E = Effects(p)
+    for cmd, (fl, pp, ff, lib, fe) in sorted(CMDS.items()):
+        f = p.fn(ff)
+        effs, _ = E.summary(f, None)
+        own = [e for e in effs if not e.via]
+        if cmd == 'discover':
+            # the only write is the constraints file, after discover_df has returned
+            lib_line = min([x.lineno for x in ast.walk(f.node) if isinstance(x, ast.Call) and getattr(x.func, 'id', '') == lib] or [10 ** 9])
+            ok = all(e.node.lineno > lib_line and e.prov == {'param:constraints_path'} for e in own)
+        else:
+            ok = not own
+        run.ob('C17-NOWRITE', '%s::%s' % (f.rel, f.short), ok,
+               '%s performs %s' % (f.short, 'no write of its own' if not own else '; '.join(e.describe()[:80] for e in own)), fn=f,
+               node=own[0].node if own else None)
+    run.floor('C17-NOWRITE', 3, 3)
